@@ -196,6 +196,11 @@ def run(chk):
             shapes.append(e_)
     for j in range(0, len(shapes), 6):
         srcs.append("".join('<v title="{{ %s }}" wx:if="{{ %s }}">{{ %s }}</v>' % (e_, e_, e_) for e_ in shapes[j:j + 6]))
+    # every template whitespace character (incl. vertical tab and form feed) between siblings, between the branches of a wx:if chain and as
+    # the only content of elements that take no children
+    for ws in ("\x0b", "\x0c", " \x0b\n", "\t\x0c\r\n", "\n"):
+        srcs.append('<view wx:if="{{a}}">x</view>%s<view wx:elif="{{b}}">y</view>%s<view wx:else>z</view>%s<slot name="s">%s</slot>%s<include src="./inc">%s</include>' % (ws, ws, ws, ws, ws, ws))
+        srcs.append('<block wx:for="{{l}}">%s<v%sid="i"%s/>%s</block>%s<import src="./lib">%s</import><template is="t">%s</template>' % (ws, ws, ws, ws, ws, ws, ws))
     inputs = [("clean", None, s) for s in srcs]
     for i, s in enumerate(srcs):
         r = rng.fork(("inj", i))
